@@ -186,7 +186,8 @@ func runConn(v *Vec, seed int64, attempt int) *outcome {
 		return o
 	}
 	tr := func(m ev.M) { o.trace = append(o.trace, m) }
-	var aux []ev.M // trace segments of auxiliary connections; appended after the main segment
+	handshakes := 0 // verified handshakes with this script's server identity
+	var aux []ev.M  // trace segments of auxiliary connections; appended after the main segment
 	defer func() { o.trace = append(o.trace, aux...); aux = nil }()
 	tr(ev.M{"k": "Reset", "seed": hex.EncodeToString(srv.Seed()), "id": v.ID, "cls": v.Cls, "src": "script"})
 
@@ -257,6 +258,23 @@ func runConn(v *Vec, seed int64, attempt int) *outcome {
 		d := str(st["d"])
 		switch k {
 		case "Hs":
+			// several connections of this process to ONE server identity: complete earlier connections first
+			for n := 1; n <= num(st["prior"]); n++ {
+				ptr, psc, _, what, got := sessionOn(srv, "again", nil, n)
+				aux = append(aux, ptr...)
+				if psc != nil {
+					defer psc.Close()
+				}
+				if what == "retry" {
+					o.retry = true
+					return o
+				}
+				if what != "" {
+					got["connection_to_this_server"] = n
+					return o.fail(i, what, got)
+				}
+				handshakes++
+			}
 			dialTimeout := 2 * stepTimeout
 			if ms := num(st["dial"]); ms > 0 {
 				// the connection is dialled under a context with a short deadline, as a pool with a dial timeout does
@@ -525,6 +543,37 @@ func runConn(v *Vec, seed int64, attempt int) *outcome {
 			if changedAt >= 0 {
 				return o.fail(changedAt, "payload-changed-after-delivery", changedInfo)
 			}
+			if rc, _ := st["reconnect"].(bool); rc && conn != nil {
+				// the server drops the connection; the client notices on a failing write and reconnects by itself to the
+				// same server identity: that handshake is verified like every other and the new connection must work
+				sc.Close()
+				failed := false
+				for t0 := time.Now(); time.Since(t0) < 3*time.Second && !failed; time.Sleep(3 * time.Millisecond) {
+					q, _ := liteclient.NewPacket([]byte{1, 2, 3})
+					failed = conn.Send(q) != nil
+				}
+				if !failed {
+					o.infra = fmt.Errorf("vec %d: writes to a closed connection keep succeeding", v.ID)
+					return o
+				}
+				rtr, rsc, _, what, got := sessionOn(srv, "reconnect", conn, 9)
+				aux = append(aux, rtr...)
+				if rsc != nil {
+					defer rsc.Close()
+				}
+				if what == "retry" {
+					o.retry = true
+					return o
+				}
+				if what != "" {
+					return o.fail(i, what, got)
+				}
+				handshakes++
+				if o.info == nil {
+					o.info = ev.M{}
+				}
+				o.info["handshakes_same_server"] = handshakes + 1 // + the scripted connection itself
+			}
 		default:
 			o.infra = fmt.Errorf("vec %d step %d: unknown step %q", v.ID, i, k)
 			return o
@@ -545,6 +594,109 @@ func runConn(v *Vec, seed int64, attempt int) *outcome {
 		}
 	}
 	return o
+}
+
+// sessionOn runs one small complete exchange over a NEW connection to the server identity srv and records it as a trace
+// segment of its own: the server verifies the handshake, acknowledges, one packet travels in each direction.
+// conn == nil: the connection is made with liteclient.NewConnection; otherwise the handshake is expected from conn's
+// own reconnect. The server side stays open (the caller closes it) so that no stray reconnect reaches srv meanwhile.
+func sessionOn(srv *adnlsrv.Server, cls string, conn *liteclient.Connection, tag int) (tr []ev.M, sc *adnlsrv.Conn, c *liteclient.Connection, what string, got ev.M) {
+	add := func(m ev.M) { tr = append(tr, m) }
+	add(ev.M{"k": "Reset", "seed": hex.EncodeToString(srv.Seed()), "id": tag, "cls": cls, "src": "aux"})
+	type dialRes struct {
+		c   *liteclient.Connection
+		err error
+	}
+	dialCh := make(chan dialRes, 1)
+	if conn == nil {
+		go func() {
+			c, err := liteclient.NewConnection(context.Background(), srv.PublicKey(), srv.Addr())
+			dialCh <- dialRes{c, err}
+		}()
+	}
+	sc, err := srv.Accept(stepTimeout)
+	if err != nil {
+		return tr, nil, conn, "no-tcp-connection", ev.M{"err": err.Error(), "where": cls}
+	}
+	add(ev.M{"k": "Hs", "dial_ms": 0})
+	herr := sc.Handshake()
+	add(ev.M{"k": "Seg", "d": "c2s", "hex": hex.EncodeToString(sc.SeenIn())})
+	add(ev.M{"k": "HsDlv", "ok": herr == nil})
+	if herr != nil {
+		sc.CloseWrite()
+		return tr, sc, conn, "handshake-verdict", ev.M{"ok": false, "err": herr.Error(), "where": cls}
+	}
+	add(ev.M{"k": "Send", "d": "s2c", "hex": ""})
+	if err := sc.SendPacket(nil); err != nil {
+		return tr, sc, conn, "aux-server", ev.M{"err": err.Error()}
+	}
+	outAt := len(sc.RawOut())
+	add(ev.M{"k": "Seg", "d": "s2c", "hex": hex.EncodeToString(sc.RawOut())})
+	if conn == nil {
+		select {
+		case r := <-dialCh:
+			if r.err != nil {
+				add(ev.M{"k": "Dead", "d": "s2c", "why": "NewConnection"})
+				return tr, sc, conn, "NewConnection-result", ev.M{"err": r.err.Error(), "where": cls}
+			}
+			conn = r.c
+		case <-time.After(stepTimeout):
+			return tr, sc, conn, "NewConnection-hangs", ev.M{"timeout": true, "where": cls}
+		}
+	} else {
+		for t0 := time.Now(); conn.Status() != liteclient.Connected; time.Sleep(2 * time.Millisecond) {
+			if time.Since(t0) > stepTimeout {
+				return tr, sc, conn, "reconnect-not-completed", ev.M{"timeout": true}
+			}
+		}
+	}
+	add(ev.M{"k": "Dlv", "d": "s2c", "hex": ""})
+	up, down := Pattern("c2s", 40+tag, 33+tag), Pattern("s2c", 50+tag, 21+tag)
+	p, err := liteclient.NewPacket(append([]byte{}, up...))
+	if err != nil {
+		return tr, sc, conn, "aux-server", ev.M{"err": err.Error()}
+	}
+	add(ev.M{"k": "Send", "d": "c2s", "hex": hex.EncodeToString(up), "again": 0})
+	if err := conn.Send(p); err != nil {
+		return tr, sc, conn, "Send-error", ev.M{"err": err.Error(), "where": cls}
+	}
+	at := len(sc.SeenIn())
+	rcv, rerr := sc.ReadPacket()
+	for rerr == nil && isPing(rcv) {
+		rcv, rerr = sc.ReadPacket() // (pings of a connection that has lived for a while; the segment will not balance and is re-run)
+		what = "retry"
+	}
+	if n := len(sc.SeenIn()); n > at {
+		add(ev.M{"k": "Seg", "d": "c2s", "hex": hex.EncodeToString(sc.SeenIn()[at:n])})
+	}
+	if what == "retry" {
+		return tr, sc, conn, what, nil
+	}
+	if rerr != nil {
+		add(ev.M{"k": "Dead", "d": "c2s", "why": rerr.Error()})
+		return tr, sc, conn, "server-receive", ev.M{"err": rerr.Error(), "where": cls}
+	}
+	add(ev.M{"k": "Dlv", "d": "c2s", "hex": hex.EncodeToString(rcv)})
+	if !bytes.Equal(rcv, up) {
+		return tr, sc, conn, "server-received-other-payload", ev.M{"len": len(rcv), "where": cls}
+	}
+	add(ev.M{"k": "Send", "d": "s2c", "hex": hex.EncodeToString(down)})
+	if err := sc.SendPacket(down); err != nil {
+		return tr, sc, conn, "aux-server", ev.M{"err": err.Error()}
+	}
+	add(ev.M{"k": "Seg", "d": "s2c", "hex": hex.EncodeToString(sc.RawOut()[outAt:])})
+	select {
+	case q := <-conn.Responses():
+		add(ev.M{"k": "Dlv", "d": "s2c", "hex": hex.EncodeToString(q.Payload)})
+		if !bytes.Equal(q.Payload, down) {
+			return tr, sc, conn, "client-delivered-other-payload", ev.M{"len": len(q.Payload), "where": cls}
+		}
+	case <-time.After(stepTimeout):
+		add(ev.M{"k": "Quiesce", "nd": []int{1, 1}, "gave_up": true})
+		return tr, sc, conn, "packet-not-delivered", ev.M{"timeout": true, "where": cls}
+	}
+	add(ev.M{"k": "Quiesce", "nd": []int{1, 2}})
+	return tr, sc, conn, "", nil
 }
 
 // sendElsewhere sends the packet value p (payload pl) on a connection of its own to a reference server of its own
